@@ -387,19 +387,30 @@ theorem drivenC_vrun {o : Oracle} (reqs : List (Nat × Bytes)) :
 theorem core_ensure_congr {s t : St} (h : core t = core s) : core (ensureInitialized t) = core (ensureInitialized s) := by
   rw [← core_ensure t, ← core_ensure s, h]
 
-/-- the facts `VGood` carry over to an abstractly equal start and to shorter inputs -/
-theorem vgood_transfer {s t : St} {D del delt : Bytes} (hcore : core t = core s)
+/-- abstractly equal starts are in particular equal up to the ring buffer -/
+theorem er_core_ensure_of_core {s t : St} (h : core t = core s) :
+    er (core (ensureInitialized t)) = er (core (ensureInitialized s)) := by
+  rw [core_ensure_congr h]
+
+/-- the facts `VGood` carry over to a start that is equal up to the ring buffer, and to shorter inputs -/
+theorem vgood_transfer {s t : St} {D del delt : Bytes}
+    (hcore : er (core (ensureInitialized t)) = er (core (ensureInitialized s)))
     (hG : VGood (absR (ensureInitialized s) D del)) :
     VGood (absR (ensureInitialized s) [] del) ∧ VGood (absR (ensureInitialized t) [] delt) := by
   have hw : (ensureInitialized s).inputPos + D.length < two64 := hG.nowrap
-  have hc := core_eq_iff.mp (core_ensure_congr hcore)
+  have hp : (ensureInitialized t).params = (ensureInitialized s).params := by
+    have := congrArg St.params hcore; exact this
+  have hi : (ensureInitialized t).isInitialized = (ensureInitialized s).isInitialized := by
+    have := congrArg St.isInitialized hcore; exact this
+  have hip : (ensureInitialized t).inputPos = (ensureInitialized s).inputPos := by
+    have := congrArg St.inputPos hcore; exact this
   refine ⟨⟨hG.init, hG.nf, hG.ncat, hG.hint, hG.bs, by show (ensureInitialized s).inputPos + 0 < two64; omega, rfl⟩, ?_⟩
-  exact ⟨hc.2.2.2.2.2.2.2.2.2.1.trans hG.init,
-    by rw [show (absR (ensureInitialized t) [] delt).s.params = (ensureInitialized t).params from rfl, hc.1]; exact hG.nf,
-    by rw [show (absR (ensureInitialized t) [] delt).s.params = (ensureInitialized t).params from rfl, hc.1]; exact hG.ncat,
-    by rw [show (absR (ensureInitialized t) [] delt).s.params = (ensureInitialized t).params from rfl, hc.1]; exact hG.hint,
-    by rw [show (absR (ensureInitialized t) [] delt).s.blockSize = (ensureInitialized t).blockSize from rfl, blockSize_of_params hc.1]; exact hG.bs,
-    by show (ensureInitialized t).inputPos + 0 < two64; rw [hc.2.1]; omega, rfl⟩
+  exact ⟨hi.trans hG.init,
+    by rw [show (absR (ensureInitialized t) [] delt).s.params = (ensureInitialized t).params from rfl, hp]; exact hG.nf,
+    by rw [show (absR (ensureInitialized t) [] delt).s.params = (ensureInitialized t).params from rfl, hp]; exact hG.ncat,
+    by rw [show (absR (ensureInitialized t) [] delt).s.params = (ensureInitialized t).params from rfl, hp]; exact hG.hint,
+    by rw [show (absR (ensureInitialized t) [] delt).s.blockSize = (ensureInitialized t).blockSize from rfl, blockSize_of_params hp]; exact hG.bs,
+    by show (ensureInitialized t).inputPos + 0 < two64; rw [hip]; omega, rfl⟩
 
 theorem ensure_state (s : St) : (ensureInitialized s).streamState = s.streamState := by
   unfold ensureInitialized; split <;> rfl
@@ -407,10 +418,13 @@ theorem ensure_state (s : St) : (ensureInitialized s).streamState = s.streamStat
 /-- **chunking_irrelevant** (model, any output schedules): two ways of cutting the same data into
 PROCESS chunks in front of the same kind of final request — PROCESS, FLUSH or FINISH, its own chunk
 empty in neither history (or the request a PROCESS) —, every request driven to completion under its
-own output-capacity / `take_output` schedule, from abstractly equal starts in PROCESSING (a fresh
-encoder, or an initialised one; main loop, not catable, size hint set, no 64-bit wrap — stated of the
-state `ensure_initialized` makes of the start): equal core states up to the ring buffer — positions,
-carry, stream state, the number of payload-encoder invocations — and equal bytes produced.
+own output-capacity / `take_output` schedule, from starts in PROCESSING that are equal UP TO THE RING
+BUFFER (a fresh encoder, or an initialised one; main loop, not catable, size hint set, no 64-bit wrap —
+stated of the state `ensure_initialized` makes of the start; `er_core_ensure_of_core`: abstractly equal
+starts qualify): equal core states up to the ring buffer — positions, carry, stream state, the number
+of payload-encoder invocations — and equal bytes produced.  The conclusion has the form of the
+hypothesis, so the theorem chains over FLUSH-separated segments: histories with the same FLUSH points
+whose segments are cut differently agree segment by segment.
 (`ensureInitialized` in the conclusion is the identity: the end states are initialised.) -/
 theorem chunking_irrelevant {o : Oracle} {op : Nat} {c c' : Bytes} {cs cs' : List Bytes}
     {s t s' t' : St} {del delt del' delt' : Bytes}
@@ -418,14 +432,15 @@ theorem chunking_irrelevant {o : Oracle} {op : Nat} {c c' : Bytes} {cs cs' : Lis
     (hsafe' : op = 0 ∨ c' ≠ [] ∨ NotBoundary (ensureInitialized s) cs'.flatten)
     (hdata : cs.flatten ++ c = cs'.flatten ++ c') (hI : IsFresh s ∨ Inv s)
     (hG : VGood (absR (ensureInitialized s) (cs.flatten ++ c) del)) (hproc : s.streamState = .processing)
-    (hcore : core t = core s) (hout : delt ++ t.pending = del ++ s.pending)
+    (hcore : er (core (ensureInitialized t)) = er (core (ensureInitialized s)))
+    (hout : delt ++ t.pending = del ++ s.pending)
     (h1 : DrivenC o (procs cs ++ [(op, c)]) s del s' del')
     (h2 : DrivenC o (procs cs' ++ [(op, c')]) t delt t' delt') :
     er (core (ensureInitialized s')) = er (core (ensureInitialized t')) ∧ del' ++ s'.pending = delt' ++ t'.pending := by
   obtain ⟨hG0, hGt⟩ := vgood_transfer (delt := delt) hcore hG
   have v1 := drivenC_vrun _ h1 hG0
   have v2 := drivenC_vrun _ h2 hGt
-  rw [core_ensure_congr hcore, hout] at v2
+  rw [hcore, hout] at v2
   have hS : VStart (er (core (ensureInitialized s))) (cs.flatten ++ c) :=
     ⟨⟨hG.init, hG.nf, hG.ncat, hG.hint, hG.bs, hG.nowrap, rfl⟩, (ensure_state s).trans hproc, vpos_of_inv (inv_ensure hI)⟩
   exact vrun_chunking (s := er (core (ensureInitialized s))) hsafe hsafe' hdata hS v1 v2
@@ -439,14 +454,15 @@ theorem chunking_irrelevant_empty_tail {o : Oracle} {op : Nat} {cs cs' : List By
     (hdata : cs.flatten = cs'.flatten) (hI : IsFresh s ∨ Inv s)
     (hG : VGood (absR (ensureInitialized s) cs.flatten del)) (hproc : s.streamState = .processing)
     (hb : remainingInputBlockSize (ensureInitialized s) ≠ 0)
-    (hcore : core t = core s) (hout : delt ++ t.pending = del ++ s.pending)
+    (hcore : er (core (ensureInitialized t)) = er (core (ensureInitialized s)))
+    (hout : delt ++ t.pending = del ++ s.pending)
     (h1 : DrivenC o (procs cs ++ [(op, [])]) s del s' del')
     (h2 : DrivenC o (procs cs' ++ [(op, [])]) t delt t' delt') :
     er (core (ensureInitialized s')) = er (core (ensureInitialized t')) ∧ del' ++ s'.pending = delt' ++ t'.pending := by
   obtain ⟨hG0, hGt⟩ := vgood_transfer (delt := delt) hcore hG
   have v1 := drivenC_vrun _ h1 hG0
   have v2 := drivenC_vrun _ h2 hGt
-  rw [core_ensure_congr hcore, hout] at v2
+  rw [hcore, hout] at v2
   have hS : VStart (er (core (ensureInitialized s))) cs.flatten :=
     ⟨⟨hG.init, hG.nf, hG.ncat, hG.hint, hG.bs, hG.nowrap, rfl⟩, (ensure_state s).trans hproc, vpos_of_inv (inv_ensure hI)⟩
   exact vrun_chunking_empty_tail hdata hS hb v1 v2
